@@ -2,11 +2,11 @@
    Proved for ALL programs: (1) expressions - the emitted lines compute the source value in the shell
    (any nesting depth, any operator mix, all int64 values, strings as data); (2) integer literals keep their
    value through printing and re-reading; (3) the reference arithmetic is Go's int64 arithmetic;
-   (4) the statement structure of the script (C16/C04 theorems).  The statement-level simulation
-   (assignments, if, for, break/continue, print, panic: C01_full_statement) is NOT proved; it is decided on
+   (4) straight-line programs of assignments and prints (C01_straight_line_preserved); (5) the statement structure of the
+   script (C16/C04 theorems).  The simulation of control flow (if, for, break/continue, panic: C01_full_statement) is NOT proved; it is decided on
    generated programs by running the implementation's script under /bin/bash against Sem/Src.v. *)
 From Verif Require Import Base.Bytestr Base.DecFacts Front.Ast Front.FrontModel Back.BashLines Back.Transpile Back.BashConv
-  Back.BashFacts Sem.Src Sem.SrcFacts Sem.BashSem Sem.ExprPreserve.
+  Back.BashFacts Sem.Src Sem.SrcFacts Sem.BashSem Sem.ExprPreserve Sem.Words Sem.StmtPreserve.
 From Coq Require Import ZArith.
 Open Scope N_scope.
 
@@ -26,6 +26,19 @@ Theorem C01_expression_preserved : forall e sg used s vs s' b v,
     (forall n, (forall k, (b_var_counter s <= k < b_var_counter s')%nat -> n <> helper_name s k) -> sh_get n b' = sh_get n b).
 Proof. exact C01_expression_preserved_proof. Qed.
 Print Assumptions C01_expression_preserved.
+
+(* Straight-line programs (assignments and definitions of one variable from call-free scalar expressions, print of such
+   expressions, in any number and order): run by the shell model -- assignments as in Sem/BashSem.v, the printed line
+   through the model of double-quoted text of Sem/Words.v -- the emitted lines print exactly what the source prints
+   and leave the shell environment representing the final source environment.  String VALUES may hold any bytes;
+   string LITERALS must be neutral (C08), variable names must be identifiers no other variable or helper shares. *)
+Theorem C01_straight_line_preserved : forall XS sg body sg' out,
+  sl XS sg body sg' out -> forall s u s' b,
+  go_fix body s = TOk u s' -> env_ok sg ->
+  (forall x, In x XS -> var_fine s x) -> represents sg b s XS -> hygienic s XS -> names_inj s XS ->
+  exists ls b', b_code s' = b_code s ++ ls /\ exec_outs b ls = Some (b', out) /\ represents sg' b' s' XS.
+Proof. exact straight_line_preserved. Qed.
+Print Assumptions C01_straight_line_preserved.
 
 (* Integer literals: what the converters print is read back as the same int64. *)
 Theorem C01_literal_roundtrip : forall z, (-9223372036854775808 <= z <= 9223372036854775807)%Z -> atoi (dec_Z z) = Some z.
@@ -55,3 +68,16 @@ Example C01_sample :
   | _ => False
   end.
 Proof. vm_compute. repeat split; reflexivity. Qed.
+
+(* Non-vacuity of the straight-line theorem: y := x + 1; print(t, y) with a string value full of shell syntax *)
+Definition vy : var := mkVar (bs "y") (T DInt) true false.
+Definition vt : var := mkVar (bs "t") (T DString) true false.
+Definition prog1 : list stmt := [SAssign [vy] [EBinary (EVar vx) OpAdd (EInt 1)]; SPrint [EVar vt; EVar vy]].
+Example C01_straight_sample :
+  match go_fix prog1 b_init with
+  | TOk _ s' => exec_outs [(bs "x", bs "4"); (bs "t", bs "a""b $(touch X) `c` \ *")] (b_code s')
+                = Some ([(bs "y", bs "5"); (bs "_h0", bs "5"); (bs "x", bs "4"); (bs "t", bs "a""b $(touch X) `c` \ *")],
+                        bs "a""b $(touch X) `c` \ * 5" ++ [10])
+  | _ => False
+  end.
+Proof. vm_compute. reflexivity. Qed.
